@@ -1,7 +1,7 @@
 """Run every translator (each writes its coq/Gen file, or a failure stub)."""
 import importlib
 
-MODULES = ["gen_dialect"]
+MODULES = ["gen_dialect", "gen_sites"]
 
 
 def generate_all():
